@@ -493,6 +493,12 @@ def not_twice(ctx, repo, itf, arf):
         v = st.value
         ok = False
         why = f"`{ast.unparse(v)[:80]}`"
+        if isinstance(v, ast.Call) and isinstance(v.func, ast.Name) and v.func.id in tc.functions and len(v.args) == 1 and not v.keywords and isinstance(v.args[0], ast.Name) and v.args[0].id == info_param and len(tc.functions[v.func.id].args.args) == 1:
+            # a helper that returns the metadata without the key: decide its return value in its own scope
+            hfd = tc.functions[v.func.id]
+            hrets = [r for r in ast.walk(hfd) if isinstance(r, ast.Return) and r.value is not None]
+            if len(hrets) == 1:
+                fac, info_param, v = hfd, hfd.args.args[0].arg, hrets[0].value
         if isinstance(v, ast.DictComp) and v.generators and v.generators[0].ifs:
             # {k: v for k, v in info.items() if k != KEY}
             gen = v.generators[0]
@@ -529,7 +535,14 @@ def not_twice(ctx, repo, itf, arf):
             ctx.violation("ONCE", f"{name}|__info__", fl.loc(n), f"{name} attaches __info__ to an aggregate: an aggregate of a rounded column could be rounded again")
     # each name wrapped at most once: one loop over the function dict, store keyed by the loop variable
     loops = [n for n in walk_own(arf) if isinstance(n, ast.For)]
-    stores = [n for n in ast.walk(arf) if isinstance(n, ast.Assign) and isinstance(n.targets[0], ast.Subscript) and isinstance(n.value, ast.Call) and "_add_rounding_to_one_function" in ast.unparse(n.value)]
+    # the decorator may be bound to a local first: `round_output = _add_rounding_to_one_function(...); new[name] = round_output(func)`
+    decorators = {n.targets[0].id for n in ast.walk(arf) if isinstance(n, ast.Assign) and isinstance(n.targets[0], ast.Name) and isinstance(n.value, ast.Call) and ast.unparse(n.value.func) == "_add_rounding_to_one_function"}
+    stores = [
+        n
+        for n in ast.walk(arf)
+        if isinstance(n, ast.Assign) and isinstance(n.targets[0], ast.Subscript) and isinstance(n.value, ast.Call)
+        and ("_add_rounding_to_one_function" in ast.unparse(n.value) or (isinstance(n.value.func, ast.Name) and n.value.func.id in decorators))
+    ]
     ok = len(loops) == 1 and len(stores) == 1 and isinstance(loops[0].target, ast.Tuple) and ast.unparse(stores[0].targets[0].slice) == ast.unparse(loops[0].target.elts[0])
     ctx.ob("ONCE", ok=ok, distinct="single-wrap")
     if not ok:
